@@ -591,9 +591,69 @@ func (e *Env) evalCall(x *Expr) (SV, error) {
 		if x.Name == "isdyn" {
 			return SV{T: c.And(c.Not(c.Eq(a.T, c.Int(0))), c.Eq(c.UF("typeof", SInt, a.T), v.typeTag(gt)))}, nil
 		}
-		name := "unbox_" + sanitize(shortTypeName(gt))
+		name := "un" + boxName(gt)
 		c.DeclareFun(name, []*Sort{SInt}, so)
 		return SV{T: c.App(name, so, a.T), GoT: gt}, nil
+	case "typeof":
+		// dynamic type tag of an interface value (the engine's `typeof` function; nil has no defined tag)
+		a, err := e.evalArgs(x.Args)
+		if err != nil {
+			return SV{}, err
+		}
+		if len(a) != 1 || a[0].T.Sort != SInt {
+			return SV{}, serr("typeof: one interface-valued argument in %s", x)
+		}
+		return SV{T: c.UF("typeof", SInt, a[0].T)}, nil
+	case "unbox":
+		// unbox(x, "T"): the value of concrete type T held by interface value x (meaningful where typeof(x) == typetag("T"));
+		// the same function the engine uses for x.(T)
+		if len(x.Args) != 2 || x.Args[1].Kind != "str" {
+			return SV{}, serr("unbox(x, \"T\") in %s", x)
+		}
+		a, err := e.Eval(x.Args[0])
+		if err != nil {
+			return SV{}, err
+		}
+		so, gt, err := v.resolveType(x.Args[1].Name)
+		if err != nil {
+			return SV{}, err
+		}
+		if gt == nil || a.T.Sort != SInt {
+			return SV{}, serr("unbox: interface value and Go type expected in %s", x)
+		}
+		name := "un" + boxName(gt)
+		c.DeclareFun(name, []*Sort{SInt}, so)
+		return SV{T: c.App(name, so, a.T), GoT: gt}, nil
+	case "implements":
+		// implements(x, "I"): x.(I) succeeds for interface type I (the engine's model of a type assertion to an interface)
+		if len(x.Args) != 2 || x.Args[1].Kind != "str" {
+			return SV{}, serr("implements(x, \"I\") in %s", x)
+		}
+		a, err := e.Eval(x.Args[0])
+		if err != nil {
+			return SV{}, err
+		}
+		_, gt, err := v.resolveType(x.Args[1].Name)
+		if err != nil {
+			return SV{}, err
+		}
+		if gt == nil || a.T.Sort != SInt {
+			return SV{}, serr("implements: interface value and Go interface type expected in %s", x)
+		}
+		return SV{T: c.And(c.Not(c.Eq(a.T, c.Int(0))), c.UF("implements_"+sanitize(shortTypeName(gt)), SBool, c.UF("typeof", SInt, a.T)))}, nil
+	case "typetag":
+		// tag of a Go type given as a string literal ("*pkg/path.T", aliases allowed): typeof(box(x : T)) == typetag("T")
+		if len(x.Args) != 1 || x.Args[0].Kind != "str" {
+			return SV{}, serr("typetag takes one string literal naming a Go type in %s", x)
+		}
+		_, gt, err := v.resolveType(x.Args[0].Name)
+		if err != nil {
+			return SV{}, err
+		}
+		if gt == nil {
+			return SV{}, serr("typetag: %s is not a Go type", x.Args[0].Name)
+		}
+		return SV{T: v.typeTag(gt)}, nil
 	}
 	args, err := e.evalArgs(x.Args)
 	if err != nil {
